@@ -17,13 +17,13 @@
 Require Import LdkV.Prim.U64.
 Open Scope Z_scope.
 
-Inductive skind := KHolder | KCparty | KSecret | KPreimage.
+Inductive skind := KHolder | KCparty | KSecret | KPreimage | KShutdownScript.
 Record upd := mkUpd { uid : Z; usteps : list skind }.
 Inductive hitem := HAdd | HClaim | HFail | HFee.
 Inductive verdict := VCompleted | VInProgress.
 (** released things: wire messages, the funding broadcast, and what is handed back to the manager
     (forwards / fails / finalized claims; completion actions such as PaymentClaimed / PaymentForwarded) *)
-Inductive rkind := RRaa | RCs | RChannelReady | RFundingBroadcast | RForward | RAction.
+Inductive rkind := RRaa | RCs | RChannelReady | RFundingBroadcast | RForward | RAction | RClosingSigned.
 Inductive out :=
 | OWatch (u : upd)            (* chain::Watch::update_channel *)
 | ORel (k : rkind) (dep : Z)  (* released; needs every update with id <= dep durable *)
@@ -71,13 +71,20 @@ Record ghost := mkGhost {
   funder : bool;
   confirmed : bool
 }.
-Record st := mkSt { ch : chan; mg : mgr; cm : cmon; gh : ghost }.
+(** cooperative close *)
+Record shut := mkShut {
+  sh_local : bool;       (* LOCAL_SHUTDOWN_SENT *)
+  sh_remote : bool;      (* REMOTE_SHUTDOWN_SENT *)
+  last_sh : Z            (* ghost: id of the last update with a ShutdownScript step *)
+}.
+Record st := mkSt { ch : chan; mg : mgr; cm : cmon; gh : ghost; sd : shut }.
 
 (** ---------- field updates *)
-Definition on_ch (f : chan -> chan) (s : st) : st := mkSt (f (ch s)) (mg s) (cm s) (gh s).
-Definition on_mg (f : mgr -> mgr) (s : st) : st := mkSt (ch s) (f (mg s)) (cm s) (gh s).
-Definition on_cm (f : cmon -> cmon) (s : st) : st := mkSt (ch s) (mg s) (f (cm s)) (gh s).
-Definition on_gh (f : ghost -> ghost) (s : st) : st := mkSt (ch s) (mg s) (cm s) (f (gh s)).
+Definition on_ch (f : chan -> chan) (s : st) : st := mkSt (f (ch s)) (mg s) (cm s) (gh s) (sd s).
+Definition on_mg (f : mgr -> mgr) (s : st) : st := mkSt (ch s) (f (mg s)) (cm s) (gh s) (sd s).
+Definition on_cm (f : cmon -> cmon) (s : st) : st := mkSt (ch s) (mg s) (f (cm s)) (gh s) (sd s).
+Definition on_gh (f : ghost -> ghost) (s : st) : st := mkSt (ch s) (mg s) (cm s) (f (gh s)) (sd s).
+Definition on_sd (f : shut -> shut) (s : st) : st := mkSt (ch s) (mg s) (cm s) (gh s) (f (sd s)).
 
 Definition c_latest v c := mkChan v (mip c) (arr c) (pd c) (our_cr c) (their_cr c) (blocked c) (p_raa c) (p_cs c) (p_cr c) (p_fwd c) (raa_first c) (hold c).
 Definition c_mip v c := mkChan (latest c) v (arr c) (pd c) (our_cr c) (their_cr c) (blocked c) (p_raa c) (p_cs c) (p_cr c) (p_fwd c) (raa_first c) (hold c).
@@ -147,7 +154,7 @@ Definition restored (s : st) : st * list out :=
   let msgs := if pd c then [] else if raa_first c then raa ++ cs else cs ++ raa in
   let c' := c_p_fwd [] (c_p_cr false (c_p_cs false (c_p_raa false (c_mip false c)))) in
   let g' := if pd c then g else g_owed_cs (owed_cs g && negb (p_cs c)) (g_owed_raa (owed_raa g && negb (p_raa c)) g) in
-  (mkSt c' (mg s) (cm s) g', msgs ++ cr ++ bc ++ fw).
+  (mkSt c' (mg s) (cm s) g' (sd s), msgs ++ cr ++ bc ++ fw).
 
 (** try_resume_channel_post_monitor_update (called only when no update of the channel is in flight) *)
 Definition try_resume (s : st) : st * list out :=
@@ -213,8 +220,10 @@ Inductive label :=
 | LEvents
 | LDisconnect
 | LReestablish (need_raa need_cs both_initial : bool)
-| LFundingLocked
-| LRecvChannelReady.
+| LFundingLocked (onchain : bool)
+| LRecvChannelReady
+| LShutdown (local script_upd : bool) (v : verdict)
+| LClosing (no_htlcs : bool).
 
 Definition err (s : st) : st * list out := (s, [OErr]).
 
@@ -377,14 +386,34 @@ Definition step (s : st) (l : label) : st * list out :=
               if mip c then (on_ch (c_p_cs true) s1, []) else (on_gh (g_owed_cs false) s1, [ORel RCs (lastK g)])
             else (s1, []) in
           (s2, cr ++ (if raa_first c then raa ++ cs else cs ++ raa))
-  | LFundingLocked =>
-      (* check_get_channel_ready at the required depth *)
-      if our_cr c then (s, [])
+  | LFundingLocked onchain =>
+      (* check_get_channel_ready at the required depth ([onchain = false]: a 0-conf channel is locked the moment it
+         is funded, its funding transaction is still unconfirmed) *)
+      let conf := confirmed (gh s) || onchain in
+      if our_cr c then (on_gh (g_confirmed conf) s, [])
       else
-        let s1 := on_gh (g_confirmed true) (on_ch (c_our_cr true) s) in
+        let s1 := on_gh (g_confirmed conf) (on_ch (c_our_cr true) s) in
         if mip c then (on_ch (c_p_cr true) s1, [])
         else if pd c then (s1, []) else (s1, [ORel RChannelReady (base (gh s))])
   | LRecvChannelReady => (on_ch (c_their_cr true) s, [])
+  | LShutdown local script v =>
+      (* local: close_channel -> get_shutdown ("Cannot begin shutdown while peer is disconnected or we're waiting on
+         a monitor update"); remote: shutdown (we answer with our own shutdown if not sent yet). Without an upfront
+         shutdown script the monitor learns the script through a ShutdownScript update. The shutdown MESSAGE itself is
+         sent at once (comment in ChannelManager::internal_shutdown); closing_signed is what waits. *)
+      if (if local then pd c || mip c else pd c) then err s
+      else
+        let s1 := on_sd (fun d => mkShut true (if local then sh_remote d else true) (last_sh d)) s in
+        if script then
+          let id := latest c + 1 in
+          let s2 := on_sd (fun d => mkShut (sh_local d) (sh_remote d) id) (paused false false false [] (on_ch (c_latest id) s1)) in
+          push_or_handle (mkUpd id [KShutdownScript]) v s2
+        else (s1, [])
+  | LClosing no_htlcs =>
+      (* maybe_propose_closing_signed / closing_signed: closing_negotiation_ready needs both shutdowns exchanged and
+         NO other state flag set (in particular neither MONITOR_UPDATE_IN_PROGRESS nor PEER_DISCONNECTED), and no HTLCs *)
+      if sh_local (sd s) && sh_remote (sd s) && negb (mip c) && negb (pd c) && no_htlcs
+      then (s, [ORel RClosingSigned (last_sh (sd s))]) else (s, [])
   end.
 
 Fixpoint run (s : st) (ls : list label) : st :=
@@ -402,13 +431,15 @@ Definition init_open (b : Z) (isdef : bool) : st :=
   mkSt (mkChan b false false false true true [] false false false [] false [])
        (mkMgr [] [])
        (mkCmon isdef [] b [] [])
-       (mkGhost b [mkUpd b []] [b] b b false false false true).
+       (mkGhost b [mkUpd b []] [b] b b false false false true)
+       (mkShut false false b).
 
 Definition init_new (b : Z) (initial_pending is_funder : bool) : st :=
   mkSt (mkChan b initial_pending false false false false [] false false false [] false [])
        (mkMgr [] [])
        (mkCmon false [] b (if initial_pending then [b] else []) [])
-       (mkGhost b [mkUpd b []] (if initial_pending then [] else [b]) b b false false is_funder false).
+       (mkGhost b [mkUpd b []] (if initial_pending then [] else [b]) b b false false is_funder false)
+       (mkShut false false b).
 
 (** [init_new] when the initial persist completed synchronously: the manager resumes the channel at once,
     which (for the funder) broadcasts the funding transaction. *)
